@@ -391,7 +391,7 @@ func init() {
 						vs = append(vs, bulkB(b))
 						note(append([]byte{}, b...)) // the filter compresses in place
 					}
-					reply, timedOut := env.Do(arr(vs...), 2*time.Second)
+					reply, timedOut := envDo(env, arr(vs...), 2*time.Second)
 					pendingMoved = false
 					switch {
 					case len(env.Panics()) > 0:
